@@ -132,6 +132,11 @@ class TmpFileAssignmentPrinter(AbstractAssignmentPrinter):
         self.dumper = open(self.output_file_name, "wb")
 
     def __del__(self):
+        self.close()
+
+    def close(self):
+        if self.dumper.closed:
+            return
         write_short_int(SHORT_TERMINATION_INT, self.dumper)
         self.dumper.close()
 
